@@ -25,9 +25,32 @@ pub struct ExtraCase {
     pub cuts: Vec<usize>,
 }
 
+/// does the text contain an `encoding=` pseudo-attribute naming something else than UTF-8? Such a
+/// document is outside the property ("every UTF-8 document not declaring another encoding"): with
+/// the `encoding` feature the reader entry point honours the label, from_str never does
+pub fn declares_other_encoding(s: &str) -> bool {
+    let l = s.to_ascii_lowercase();
+    let mut from = 0;
+    while let Some(i) = l[from..].find("encoding") {
+        let rest = l[from + i + 8..].trim_start();
+        if let Some(rest) = rest.strip_prefix('=') {
+            let rest = rest.trim_start();
+            let label: String = rest.chars().skip(1).take_while(|c| *c != '"' && *c != '\'').collect();
+            if (rest.starts_with('"') || rest.starts_with('\'')) && label != "utf-8" && label != "utf8" {
+                return true;
+            }
+        }
+        from += i + 8;
+    }
+    false
+}
+
 pub fn check_extra(c: &ExtraCase) -> Verdict {
     if crate::refxml::is_utf16_like(c.input.as_bytes()) {
         return Verdict::excluded("utf16-signature");
+    }
+    if declares_other_encoding(&c.input) {
+        return Verdict::excluded("declares-another-encoding");
     }
     let cuts = super::c02::normalise_cuts(c.input.as_bytes(), &c.cuts);
     let a = super::c07::try_de_debug(&c.target, &c.input, None);
@@ -45,6 +68,9 @@ pub fn check_dyn(c: &super::c07::DynCase) -> Verdict {
     use crate::dynde;
     if crate::refxml::is_utf16_like(c.input.as_bytes()) {
         return Verdict::excluded("utf16-signature");
+    }
+    if declares_other_encoding(&c.input) {
+        return Verdict::excluded("declares-another-encoding");
     }
     let budget = super::c07::dyn_budget(c);
     dynde::set_budget(budget);
@@ -97,6 +123,9 @@ pub fn check(c: &Case) -> Verdict {
     // not a UTF-8 document for the reader entry point (from_str fixes UTF-8): outside the domain
     if crate::refxml::is_utf16_like(c.input.as_bytes()) {
         return Verdict::excluded("utf16-signature");
+    }
+    if declares_other_encoding(&c.input) {
+        return Verdict::excluded("declares-another-encoding");
     }
     let a = c.ty.from_str(&c.input);
     let cuts = super::c02::normalise_cuts(c.input.as_bytes(), &c.cuts);
